@@ -85,8 +85,12 @@ def run_group(gname, tier, seed):
     # proof hints are optional accelerators: a hint that no longer holds is removed and the
     # obligations are re-checked without it, so a failed hint is never itself a violation
     dropped = set()
+    anchor_lost = set()
     for _ in range(3):
         hf = set((f["clause_unit"], f["clause"]) for f in am["failures"] if f.get("clause_kind") == "at" and ("let ghost" not in f.get("rendered", "") or f.get("frontend_in_hint"))) - dropped
+        # a hint that no longer COMPILES names something that is gone (a renamed local, a removed statement): the unit's
+        # proof has lost an anchor; whatever fails in that unit afterwards is undecided, never a violation
+        anchor_lost |= set(f["clause_unit"] for f in am["failures"] if f.get("clause_kind") == "at" and f.get("frontend_in_hint"))
         if not hf:
             break
         dropped |= hf
@@ -95,6 +99,7 @@ def run_group(gname, tier, seed):
         built["main"] = a2
         am = vlib.analyse(a2, main)
     am["hints_dropped"] = sorted("%s @ %s" % x for x in dropped)
+    am["anchor_lost_units"] = sorted(anchor_lost)
     stab = [vlib.analyse(built["main"], e) for e in extra]
     return {"built": built, "main": main, "am": am, "can": can, "ac": ac, "stab": stab, "wall": time.time() - t0}
 
@@ -145,8 +150,14 @@ def main():
             undecided.append("%s: %s" % (gname, u))
         obs = obligations_for(pid, built)
         failed_obs = {}
+        lost = set(am.get("anchor_lost_units", []))
         for f in am["failures"]:
             if f.get("props") and pid in f["props"]:
+                if f.get("owner") in lost or f.get("clause_unit") in lost:
+                    undecided.append("%s: a proof hint of %s no longer compiles (it names a local or statement that is gone: structure changed); %s is not decided"
+                                     % (gname, f.get("clause_unit") or f.get("owner"), f["obligation"]))
+                    failed_obs[f["obligation"]] = f
+                    continue
                 failures.append(dict(f, group=gname))
                 failed_obs[f["obligation"]] = f
         # stability: a clause failing only under another seed is unstable -> undecided
